@@ -15,6 +15,8 @@ CHECKS = {
          "Requests with by-construction idempotency ground truth (CQL templates with case/whitespace variants, prepared ids known/unknown to the proxy, batches, graph payloads) meet scripted per-attempt outcomes and connection losses; the backend log must show no further attempt after an outcome that may have applied a non-idempotent request, and the client must see that error or a connection-lost error.", "§7 C04"),
  "C05": ("deterministic simulation: scripted outcome sequences over 1-4 hosts; attempt trace and final frame checked against an executable, set-valued reference model of the documented retry policy",
          "Sequential requests in a settled world; each request's ordered (host, outcome) trace and final client frame must be accepted by a reference model written from the policy documentation (same-host once, next-host once/always/if idempotent, rotation order, each host once, hosts+1 bound, 'no more hosts' exactly on exhaustion), with the full field space of timeout/unavailable messages swept through the wire.", "§7 C05"),
+ "C15": ("deterministic simulation at component level: load balancer driven by sim tasks with a yield at every lock/atomic operation; exhaustive small-scope sweep + seeded long and concurrent histories against a set-based model",
+         "The real round-robin load balancer is driven through OnEvent/NewQueryPlan/Next: an exhaustive sweep of well-formed event histories over up to 4-5 hosts, seeded long histories, and concurrent planner tasks racing an event task under the token scheduler; every plan must yield some membership of its creation window exactly once, never a duplicate, with rotating starts and balanced first choices.", "§7 C15"),
 }
 
 NOT_APPLICABLE = {
